@@ -111,3 +111,22 @@ def classify_c07(what, v):
 
 def classify_c09(what, v):
     return None
+
+
+def classify_c14(what, v, recipe):
+    """A9: MethodCall has no tuple-packing step: with more than 15 non-transaction arguments it emits one ApplicationArgs
+    entry per argument (17+ entries with the selector), which exceeds the AVM limit of 16."""
+    nargs = sum(1 for nd in recipe["main"]["a"] if nd["k"] == "ItxField" and nd["s"] == "ApplicationArgs")
+    if nargs == 16 and v[3] in ("verdict-class", "itxns"):
+        sig = what.split(" values#")[0]
+        inner = sig[sig.index("(") + 1:sig.rindex(")")]
+        depth, n = 0, 1 if inner else 0
+        for ch in inner:
+            depth += ch in "(["
+            depth -= ch in ")]"
+            n += ch == "," and depth == 0
+        import re
+        plain = n - len(re.findall(r"(?<![a-z])(txn|pay|axfer|appl|keyreg|acfg|afrz)(?![a-z0-9\[])", inner))
+        if plain > 15:
+            return "A9/inner-method-call-does-not-pack-arguments-beyond-15"
+    return None
